@@ -60,6 +60,12 @@ def add_embeddings(rng, prog):
         ops.append({'kind': 'op', 'op': 'AddCashFlow', 'sector': a, 'term': 'XFLOW', 'eqn': '0.01*{%s:INC}' % b, 'is_income': False})
         ops.append({'kind': 'op', 'op': 'AddCashFlow', 'sector': b, 'term': '-XFLOW', 'eqn': '0.01*INC', 'is_income': False})
         kinds.append('cash-flow-definition')
+    if any(st['kind'] == 'external' for st in prog['steps']) and secs and rng.random() < 0.6:
+        # names embedded in equations of the external sector's own sectors (exchange-rate rule, gold note)
+        a = rng.choice(secs)
+        ops.append({'kind': 'op', 'op': 'AddVariable', 'sector': 'XR', 'name': 'RULE', 'eqn': '1.0 + 0.001*{%s:INC}' % a})
+        ops.append({'kind': 'op', 'op': 'AddVariable', 'sector': 'GOLD', 'name': 'NOTE', 'eqn': '2.0*{XR:RULE} + {%s:F}' % a})
+        kinds.append('external-sector-equation')
     steps = list(prog['steps'])
     if rng.random() < 0.3:
         # the public debug dump Model.LogInfo() called in the middle of construction
